@@ -51,7 +51,9 @@ CHECKS = {
              "the verified checker check_delivery and by an independent Python packet simulator.",
         ref="4 C01", technique="Coq proof (big-step delivery semantics, tree induction, composition of the C10/C04/C03 models; verified validator) + validator evaluated in Coq on real pipeline outputs",
         note=TB + " Placement/allocation feasibility is C02/C05; the rig_c_sa kernel is third-party compiled code (outputs validated "
-             "only). Units GenNetwork, GenTable*, GenRouter, GenGeometry* are regenerated on every run."),
+             "only). Units GenNetwork, GenTable*, GenRouter, GenGeometry* are regenerated on every run; GenPipeline pins, fail closed, "
+             "the statements of wrapper() / place_and_route_wrapper() that compose the stages (the composition the end-to-end "
+             "theorems are about)."),
     "C18": dict(
         text="Universal theorems over all signatures, nestings and exit paths of a Gallina model of the contextual-argument "
              "wrapper and context stack: resolution precedence (explicit > innermost context > default) and totality, "
